@@ -417,6 +417,34 @@ def explore_backbone(ctx: common.Ctx, kind: str, n_jobs: int, opts: dict, procs:
     return res
 
 
+def fusion_dense_stream(ctx: common.Ctx, n_jobs: int, procs: int = 14):
+    """a cluster of 6-7 SNVs inside a fusion's accepter part (cv_backbone.fusion_dense_worker): adding
+    the last SNV only adds peptides"""
+    from . import cv_backbone
+    jobs = [(ctx.rng('fdense', i).randrange(1 << 30), ctx.tier, {}) for i in range(n_jobs)]
+    with mp.get_context('fork').Pool(min(procs, max(1, n_jobs))) as pool:
+        res = pool.map(cv_backbone.fusion_dense_worker, jobs)
+    st = ctx.coverage.setdefault('fusion_dense_stats', {})
+    for r in res:
+        for k, v in r.get('stats', {}).items():
+            st[k] = st.get(k, 0) + v
+        if 'runs' not in r:
+            continue
+        a, b = set(r['runs']['fewer']['real']), set(r['runs']['all']['real'])
+        ctx.evaluated('dense-cluster-in-fusion', str(r['seed']), bool(b - a), r['desc'])
+        if r['runs']['fewer']['status'] != 'ok' or r['runs']['all']['status'] != 'ok':
+            if r['runs']['fewer']['status'] == 'ok':
+                ctx.add_violation(f'callVariant fails ({r["runs"]["all"]["status"]}) when one more SNV is added to a '
+                                  'cluster inside a fusion', dict(r['desc'], kind='dense-in-fusion'))
+            continue
+        lost = a - b
+        if lost:
+            ctx.add_violation(f'adding the SNV {r["desc"]["snvs"][-1]} to a cluster of {len(r["desc"]["snvs"]) - 1} SNVs '
+                              f'inside the accepter part of a fusion removed {len(lost)} peptide(s), e.g. '
+                              f'{sorted(lost)[:3]}', dict(r['desc'], kind='dense-in-fusion', lost=sorted(lost)[:20]))
+    shutil.rmtree(gen_ref.WORK, ignore_errors=True)
+
+
 def circ_dup_stream(ctx: common.Ctx, n_jobs: int, procs: int = 14):
     """the same circRNA record in two GVF files (cv_backbone.circ_dup_worker): entry strings stay
     unique, the peptide set is that of the file given once"""
